@@ -60,3 +60,10 @@ pub open spec fn local_call_ok(args: Seq<ExprId>, r: Expr, c1: Seq<Constraint>) 
                   && forall|i: int| 0 <= i < a@.len() ==> #[trigger] params@[i] == expr_ty(a@[i])))
     }
 }
+
+// a call by name, from the construction of the call-site function type on
+pub open spec fn named_tail_ok(r: Expr, inst_ty: Ty, arg_types: Seq<Ty>, args_tast: Seq<Expr>, ret_ty: Ty, c1: Seq<Constraint>) -> bool {
+    &&& r matches Expr::ECall { func, args: a, ty } && a@ == args_tast && ty == ret_ty && expr_ty(*func) == inst_ty
+    &&& c1.len() > 0
+    &&& (c1.last() matches Constraint::TypeEqual(l, rr) && l == inst_ty && (rr matches Ty::TFunc { params, ret_ty: rt } && params@ == arg_types && *rt == ret_ty))
+}
